@@ -124,4 +124,6 @@ def run(ctx):
     profile.check(ctx, rep, 'R15.P', ['creg_finish', 'clog_finish'])
     from rules import lclone
     lclone.check(ctx, rep, 'R15.C')
+    from rules import lparams
+    lparams.check(ctx, rep, 'R15.N')
     return rep
